@@ -616,22 +616,29 @@ def families(ctx):
             bl = (lambda u, t, tgt=tgt: tgt([u[1], u[0]], t)) if label in linked else b
             fam.append((f'est {who} constraint link {label}', (lambda who=who, label=label, b=b, bl=bl: link_obligation(ctx, who, label, b, bl))))
     fam += [(f'template {eff} cond={hc}', (lambda hc=hc, eff=eff: policy_round_trip(ctx, hc, eff))) for hc in (True, False) for eff in ('Permit', 'Forbid')]
+    from . import c06_proto
+    fam += c06_proto.families(ctx)
     return fam
 
 
 def run(ctx):
     ctx.run_families(families(ctx))
     ctx.guarded('native battery', lambda: battery_selftest(ctx))
+    from . import c06_proto
+    ctx.guarded('native protobuf battery', lambda: c06_proto.proto_battery(ctx, 'native protobuf battery', 'proto/*.rs: PolicySet through Protobuf::encode / decode', 'native protobuf battery'))
     ctx.bounds += ['one expression node of each kind (if, &&, ||, 3 unary and 12 binary operators, attribute access, has, like, is, set and record with 2 members, extension call with 2 arguments, variable, slot) with opaque '
                    'children that round-trip by induction hypothesis => expressions of any depth; containers with 2 members',
                    'every scope-constraint shape (principal / resource: any, == entity, == slot, in entity, in slot, is, is-in entity, is-in slot; action: any, ==, in [0, 1, 2 actions]); whole template: both effects, with / without '
-                   'condition, two annotations', f'native battery: {len(CONDS) + len(POLICIES)} policies through Policy::to_json / Policy::from_json']
+                   'condition, two annotations', f'native battery: {len(CONDS) + len(POLICIES)} policies through Policy::to_json / Policy::from_json; native protobuf battery: {len(c06_proto.PROTO_SETS)} policy sets (incl. templates and links) through Protobuf::encode / decode, compared by id, scope and AST equality']
     ctx.assumptions += ['children are opaque: ast -> est of child i is an arbitrary EST e_i and est -> ast of e_i gives child i back (induction hypothesis); AST invariant used: && / || never have two boolean literals as children '
                         '(ExprBuilder::and / or fold them, and every AST is built through the builder)',
                         'leaves whose text form is out of reach are opaque and assumed to round-trip: printing and re-parsing of entity type names and extension function names (C05), ast::Pattern <-> EST pattern elements, '
                         'literal values (CedarValueJson), unknowns; the function of an extension call is assumed to be a known extension function',
                         'the same expression-node round trip is decided for the programmatic syntax tree (AST -> PST through PstBuilder, PST -> AST through pst::Expr::into_expr and the ast builder), except extension calls (PST keys them by name strings)',
-                        'NOT covered: JSON (serde) serialisation itself, entity uids / literal values as JSON, template links, policy sets, PST scope constraints / policies, the protobuf format']
+                        'protobuf (cedar-policy/src/proto/{policy,ast}.rs from the cedar-policy crate dump, message types = the prost-generated code of the dump build): the same two-run round trip per scope-constraint shape, effect and '
+                        'expression node kind (+ literal, 4 variables, 2 slots); the ast::Expr constructors, Expr::expr_kind, SlotId tests / constructors and EntityReference::euid of cedar-policy-core are logged one-line stubs; entity uids, names, '
+                        'literals and pattern elements are tokens with their own (undecided) conversion pairs; prost byte encoding is a library (native protobuf battery only)',
+                        'NOT covered: JSON (serde) serialisation itself, entity uids / literal values as JSON, policy sets, PST scope constraints / policies, protobuf TemplateBody / Policy / PolicySet / Entities / Request / schema messages']
     return ctx.finish('Solver-decided AST <-> EST round trip of the JSON policy format at three levels (expression nodes, scope constraints, whole template: effect, constraints, condition, annotations), executed from the MIR of ast/expr.rs, ast/expr_builder.rs and est/expr.rs: for every kind of expression node, AST -> EST '
                       '(generic walker, ExprBuilder::{unary_app, binary_app} dispatch, est::Builder) followed by EST -> AST (est::Expr::try_into_ast and the real ast constructors) yields a node of the same kind and operator '
                       'with the children in the same positions; the second run starts from the value the first one produced.')
